@@ -292,6 +292,44 @@ def c_hessian(ctx, it, cfg):
     ctx.prove('canary/amount-column-is-the-plain-gradient', eq(H.get(0, iN), g[S]), expect='refuted')
 
 
+@REG.contract('chemical_diffusivity/mobility-matrix-times-thermodynamic-factor-with-the-callers-correction', [MOB + ':chemical_diffusivity'],
+              configs=[dict(name=c, corr=c) for c in ('none', 'one-element', 'every-element')])
+def c_chemdiff(ctx, it, cfg):
+    """D_kj = (mobility matrix) x (dmu/dx), where the mobility matrix is built with EXACTLY the correction factors the caller gave (elements not listed: 1) --
+    the same factors tracer_diffusivity applies, which is what keeps the Darken relation"""
+    els = ['AL', 'CR', 'NI']
+    v = install(it)
+    cs = CompSet(ctx, 'cs', 'FCC_A1', els, v, nsf=3)
+    mod = it.load(MOB)
+    n = len(els)
+    M = NP.array([[real(ctx, 'M_%d_%d' % (i, j)) for j in range(n)] for i in range(n)])
+    H = NP.array([[real(ctx, 'H_%d_%d' % (i, j)) for j in range(n)] for i in range(n)])
+    calls = []
+
+    def mobility_matrix(**kw):
+        calls.append(kw)
+        return M
+    mod.env['mobility_matrix'] = mobility_matrix
+    mod.env['partialdMudX'] = lambda mu, c: (calls.append(('dmudx', mu, c)), H)[1]
+    fac = {'CR': real(ctx, 'corr_CR', lambda q: q > 0), 'AL': real(ctx, 'corr_AL', lambda q: q > 0), 'NI': real(ctx, 'corr_NI', lambda q: q > 0)}
+    given = None if cfg['corr'] == 'none' else ({'CR': fac['CR']} if cfg['corr'] == 'one-element' else dict(fac))
+    before = None if given is None else dict(given)
+    cb = object()
+    D, hess = mod.env['chemical_diffusivity']('MU', cs, cb, mobility_correction=given, returnHessian=True)
+    mm = [c for c in calls if isinstance(c, dict)]
+    ctx.prove('one-mobility-matrix-for-this-composition-set-and-these-callables', len(mm) == 1 and mm[0].get('composition_set') is cs and mm[0].get('mobility_callables') is cb)
+    if len(mm) == 1:
+        got = mm[0].get('mobility_correction')
+        eff = lambda d, A: 1 if d is None else d.get(A, 1)
+        ctx.prove('correction-factors-reaching-the-mobility-matrix-are-the-callers', and_(*[eq(eff(got, A), eff(given, A)) for A in els]))
+    for i in range(n):
+        for j in range(n):
+            ctx.prove('D[%d,%d] = sum_k M[%d,k] dmu_k/dx_%d' % (i, j, i, j), eq(D.get(i, j), sum(M.get(i, k) * H.get(k, j) for k in range(n))))
+    ctx.prove('thermodynamic-factor-returned-is-the-one-used', hess is H)
+    ctx.prove('callers-correction-table-not-modified', given == before)
+    ctx.prove('canary/diffusivity-is-the-mobility-matrix', eq(D.get(0, 0), M.get(0, 0)), expect='refuted')
+
+
 @REG.contract('inverseMobility/consistent-pieces', [MOB + ':inverseMobility'], configs=[dict(name='AL-CR-NI', els=['AL', 'CR', 'NI'])])
 def c_invmob(ctx, it, cfg):
     els = cfg['els']
